@@ -46,14 +46,15 @@ MANIFEST = dict(
 INVS = ["IsCase", "Conforms", "PConfigRight", "PNoSpuriousFailure", "PFailureReaches", "PPanicRule",
         "PFreshPerProduct", "POncePerFactory"]
 NEGS = ["PluginRegistry_neg_typeonly.cfg", "PluginRegistry_neg_mapcopy.cfg", "PluginRegistry_neg_cache.cfg", "PluginRegistry_neg_nodefault.cfg",
-        "PluginRegistry_neg_panic.cfg"]
+        "PluginRegistry_neg_panic.cfg", "PluginRegistry_neg_helperdrops.cfg"]
 
 
 def case_sig(c):
     return ("reg=%s ret=%s cfg=%s cerr=%s ferr=%s dflt=%s form=%s fail=%s nested=%s shape=%s calls=%s mutate=%s" % (
         c["reg"], c["ret"], c["cfg"], int(c["cerr"]), int(c["ferr"]), int(c["dflt"]), c["form"], c["fail"], c["nested"],
         c["shape"], "1" if c["calls"] == 1 else ">=2", int(c["mutate"])) +
-            ("" if (c.get("user", "set"), c.get("dv", "valid")) == ("set", "valid") else " user=%s defaults=%s" % (c["user"], c["dv"])))
+            ("" if (c.get("user", "set"), c.get("dv", "valid")) == ("set", "valid") else " user=%s defaults=%s" % (c["user"], c["dv"])) +
+            ("" if c.get("how", "Register") == "Register" else " registered-through=register.%s" % c["how"]))
 
 
 def validate(v, obs_path, rows, workers=8):
